@@ -117,3 +117,27 @@ m("c18-zst-guard-removed", "C18,C07", VM, "        // Zero-sized elements name n
 m("c19-offset-from-swapped", "C19", "src/address.rs", "self.0.checked_sub(base.0)", "base.0.checked_sub(self.0)", "R19.1.offset_from")
 m("c19-align-mask", "C19", "src/address.rs", "        let mask = power_of_two - Self::one();\n        assert_ne!(power_of_two, Self::zero());", "        let mask = power_of_two;\n        assert_ne!(power_of_two, Self::zero());", "R19.3.checked_align_up")
 m("c20-be32-le", "C20", "src/endian.rs", "endian_type!(u32, Be32, to_be, from_be);", "endian_type!(u32, Be32, to_le, from_le);", "R20.1")
+
+# ---- exploratory batch at secondary sites (expected rule "?" = any rule of the named property must fire) ----
+m("x-subslice-bitmap-offset-count", "C05", VM, "                count,\n                self.bitmap.slice_at(offset),", "                count,\n                self.bitmap.slice_at(count),", "?")
+m("x-ref-at-bitmap-index", "C05", VM, "VolatileRef::with_bitmap(ptr, self.bitmap.slice_at(byteofs as usize), self.mmap)", "VolatileRef::with_bitmap(ptr, self.bitmap.slice_at(index), self.mmap)", "?")
+m("x-ref-to-slice-len-align", "C01", VM, "                self.addr as *mut u8,\n                size_of::<T>(),", "                self.addr as *mut u8,\n                size_of::<T>().next_power_of_two(),", "?")
+m("x-array-to-slice-nelem", "C01", VM, "                self.addr,\n                self.nelem * self.element_size(),", "                self.addr,\n                (self.nelem + 1) * self.element_size(),", "?")
+m("x-get-ref-no-assert-size", "C01", VM, "    fn get_ref<T: ByteValued>(&self, offset: usize) -> Result<VolatileRef<T, BS<Self::B>>> {\n        let slice = self.get_slice(offset, size_of::<T>())?;", "    fn get_ref<T: ByteValued>(&self, offset: usize) -> Result<VolatileRef<T, BS<Self::B>>> {\n        let slice = self.get_slice(offset, align_of::<T>())?;", "?")
+m("x-region-write-reads", "C03", MM, "            .write_slice(buf, maddr)", "            .write(buf, maddr).map(|_| ())", "?")
+m("x-region-read-exact-partial", "C03,C14", MM, "            .read_exact_volatile_from(addr.0 as usize, src, count)", "            .read_volatile_from(addr.0 as usize, src, count).map(|_| ())", "?")
+m("x-region-load-offset0", "C03", MM, ".and_then(|s| s.load(addr.raw_value() as usize, order).map_err(Into::into))", ".and_then(|s| s.load(0, order).map_err(Into::into))", "?")
+m("x-vec-write-count-cap", "C13", IO, "        let count = buf.len();\n        self.reserve(count);", "        let count = buf.len().min(self.capacity().max(1));\n        self.reserve(count);", "?")
+m("x-baseslice-dirty-at-base", "C09", "src/bitmap/backend/slice.rs", "self.inner.dirty_at(self.base_offset.wrapping_add(offset))", "self.inner.dirty_at(offset)", "?")
+m("x-baseslice-slice-at-replace", "C05,C09", "src/bitmap/backend/slice.rs", "            base_offset: self.base_offset.wrapping_add(offset),", "            base_offset: offset,", "?")
+m("x-unchecked-align-up-or", "C19", "src/address.rs", "        self.unchecked_add(mask) & !mask", "        self.unchecked_add(mask) & mask", "?")
+m("x-address-mask-or", "C19", "src/address.rs", "        self.raw_value() & mask", "        self.raw_value() | mask", "?")
+m("x-guest-get-slice-count", "C02", GM, ".and_then(|(r, addr)| r.get_slice(addr, count))", ".and_then(|(r, addr)| r.get_slice(addr, count.max(1)))", "?")
+m("x-exclusive-guard-other-mutex", "C11", "src/atomic.rs", "    pub fn replace(self, map: M) {\n        self.parent.inner.0.store(Arc::new(map))\n    }", "    pub fn replace(self, map: M) {\n        let p = self.parent;\n        drop(self);\n        p.inner.0.store(Arc::new(map))\n    }", "?")
+m("x-atomicbitmap-clone-size", "C09", AB, "            size: self.size,\n            byte_size: self.byte_size,", "            size: self.size + 1,\n            byte_size: self.byte_size,", "?")
+m("x-bitmap-new-floor", "C09", AB, "        let num_pages = byte_size.div_ceil(page_size.get());", "        let num_pages = byte_size / page_size.get();", "?")
+m("x-read-obj-partial", "C04", "src/bytes.rs", "self.read_slice(result.as_mut_slice(), addr).map(|_| result)", "self.read(result.as_mut_slice(), addr).map(|_| result)", "?")
+m("x-write-obj-partial", "C04", "src/bytes.rs", "self.write_slice(val.as_slice(), addr)", "self.write(val.as_slice(), addr).map(|_| ())", "?")
+m("x-from-ranges-no-offset-check", "C15", MM, "if filesize < end {", "if false && filesize < end {", "?")
+m("x-array-copy-from-mark-start", "C05,C16", VM, "            self.bitmap.mark_dirty(0, ptr as usize - start as usize);", "            self.bitmap.mark_dirty(ptr as usize - start as usize, 0);", "?")
+m("x-slice-write-obj-volatile-order", "C06", VM, "if total <= size_of::<usize>() {", "if total <= size_of::<u32>() {", "?")
